@@ -32,6 +32,14 @@ func coreC16(tier string) []RunSpec {
 			}
 		}
 	}
+	// a storage call fails inside the quote requests that probe the limits
+	for mb := 1; mb < 3; mb++ {
+		for mm := 0; mm < 2; mm++ {
+			for k := 0; k < 3; k++ {
+				out = append(out, RunSpec{Profile: "core:limits-under-storage-error", Params: map[string]int{"maxbal": mb, "mintmax": mm, "meltmax": 1, "limfault": 1, "faults": 0, "whale": 0, "k": k}})
+			}
+		}
+	}
 	// one storage error at the k-th storage call of a swap / melt / mint / internal settlement
 	for _, op := range []int{1, 2, 0, 12} {
 		for k := 1; k <= 10; k++ {
@@ -225,7 +233,14 @@ func (m *MW) StepQuoteLimits() {
 	amt := cands[m.T.Choose("lim.amt", len(cands))]
 	melt := m.T.Chance("lim.melt", 1, 3)
 	internal := melt && m.T.Chance("lim.internal", 1, 3)
-	m.rc.Op(fmt.Sprintf("quote-limit melt=%v amt=%d", melt, amt))
+	// sometimes one of the mint's storage calls inside the quote request fails: the request may then
+	// be answered with any error, but a request the limits refuse must still not be granted
+	var plan *FaultPlan
+	if m.rc.P("limfault", 0) == 1 || m.T.Chance("lim.dberr", 1, 5) {
+		plan = &FaultPlan{Node: mint, Kind: "db_error", SeamKind: "db", Pos: 1 + m.T.Choose("lim.dberr.pos", 3)}
+		m.NextPlans = []*FaultPlan{plan}
+	}
+	m.rc.Op(fmt.Sprintf("quote-limit melt=%v amt=%d fault=%v", melt, amt, plan != nil))
 	m.begin()
 	m.rc.S.Run1(m.name("lim"), W.Ext, func() {
 		if melt {
@@ -247,6 +262,13 @@ func (m *MW) StepQuoteLimits() {
 			_, r := m.Atk.ReqMeltQuote(mint, bolt, 0)
 			reject := lim.MeltingSettings.MaxAmount > 0 && amt > lim.MeltingSettings.MaxAmount
 			m.rc.S.Probe("c16_melt_quote_limit_checked")
+			if plan != nil && plan.fired {
+				m.rc.S.Probe("c16_quote_limit_under_storage_error")
+				if reject && r.OK() {
+					W.Book.Violate("C16.melt_limit", "melt_under_storage_error", "melt quote for %d sat with melt maximum %d was granted while a storage call of the request failed (%s)", amt, lim.MeltingSettings.MaxAmount, m.rc.S.LastFault)
+				}
+				return
+			}
 			if reject && (r.OK() || r.Code != 11006) {
 				W.Book.Violate("C16.melt_limit", "melt", "melt quote for %d sat with melt maximum %d answered %v", amt, lim.MeltingSettings.MaxAmount, r)
 			}
@@ -262,6 +284,13 @@ func (m *MW) StepQuoteLimits() {
 		m.rc.S.Probe("c16_mint_quote_limit_checked")
 		if sum.BitLen() > 64 && lim.MaxBalance > 0 {
 			m.rc.S.Probe("c16_balance_plus_amount_overflows")
+		}
+		if plan != nil && plan.fired {
+			m.rc.S.Probe("c16_quote_limit_under_storage_error")
+			if r.OK() && (overMax || (overBal && !unresolved)) {
+				W.Book.Violate("C16.max_balance", "granted_under_storage_error", "mint quote for %d sat (balance %d, mint maximum %d, maximum balance %d) was granted while a storage call of the request failed (%s)", amt, bal, lim.MintingSettings.MaxAmount, lim.MaxBalance, m.rc.S.LastFault)
+			}
+			return
 		}
 		switch {
 		case overMax:
